@@ -9,7 +9,7 @@
   history is a list of client actions interleaved with arbitrary server behaviour.
 
   `fixed : Bool` selects between the code as it stood on the pinned tree (`false`) and the code
-  with the two repairs `fixes/C17-*.diff` (`true`):
+  with the two repairs `fixes/C17-streak.diff`, `fixes/C17-sent-once.diff` (`true`):
     * `_handle_status_error`: `== _MAX_ERROR` (current) vs `>= _MAX_ERROR` (fixed);
     * `execute_async`: `assert status.waiting` (current) vs `assert not was_sent and status.waiting`.
 
